@@ -128,6 +128,34 @@ $(BUILD)/fuzz/C18_fuzz: $(SRC)/fuzz/C18_fuzz.cpp $(SRC)/props/C18_oracle.hpp $(a
 	@mkdir -p $(dir $@)
 	$(CXX) -std=gnu++17 -g -O1 -fsanitize=fuzzer,address,undefined -fno-sanitize-recover=undefined -I$(SRC) -I$(SRC)/winstub -I$(SRC)/props -o $@ $(filter %.cpp %.o,$^)
 
+# Engine W2: the whole library in its _WIN32 configuration on the Win32
+# simulator (src/winsim). Allocation calls of the library are renamed to the
+# simulator's recording allocator; the BSD-style socket names are renamed in the
+# combined object so that they do not shadow libc's.
+WSIM_LIB := reproc redirect options strv drain run clock.windows error.windows handle.windows init.windows pipe.windows process.windows redirect.windows utf.windows
+WSIM_CFLAGS := -O1 -g -std=gnu99 $(SAN) -D_WIN32 -D_WIN64 -DWIN32 -fdeclspec -I$(SRC)/winsim -I$(VERIF_REPO)/reproc/include -I$(VERIF_REPO)/reproc/src
+$(BUILD)/wsim/%.o: $(VERIF_REPO)/reproc/src/%.c $(wildcard $(SRC)/winsim/*.h)
+	@mkdir -p $(dir $@)
+	$(CC) $(WSIM_CFLAGS) -Wno-everything -MMD -MP -c $< -o $@
+$(BUILD)/wsim/winsim.o: $(SRC)/winsim/winsim.c $(wildcard $(SRC)/winsim/*.h)
+	@mkdir -p $(dir $@)
+	$(CC) $(WSIM_CFLAGS) -Wall -MMD -MP -c $< -o $@
+$(BUILD)/wsim/wsimlib.o: $(addprefix $(BUILD)/wsim/,$(addsuffix .o,$(WSIM_LIB))) $(BUILD)/wsim/winsim.o $(SRC)/winsim/alloc.map $(SRC)/winsim/sock.map
+	ld -r -o $@.lib.raw $(addprefix $(BUILD)/wsim/,$(addsuffix .o,$(WSIM_LIB)))
+	objcopy --redefine-syms=$(SRC)/winsim/alloc.map $@.lib.raw $@.lib
+	ld -r -o $@.raw $@.lib $(BUILD)/wsim/winsim.o
+	objcopy --redefine-syms=$(SRC)/winsim/sock.map $@.raw $@
+-include $(wildcard $(BUILD)/wsim/*.d)
+WSIM_PROPS := C01win C02win C04w2 C05win C06win C10win C11win
+define WSIM_RULES
+$(BUILD)/props/$(1).o: $(SRC)/props/Wsim.cpp $(wildcard $(SRC)/common/*.hpp) $(wildcard $(SRC)/winsim/*.h) $(wildcard $(SRC)/props/*.hpp)
+	@mkdir -p $$(dir $$@)
+	$(CXX) $(HCXXFLAGS) -I$(SRC)/winsim -DWPROP_$(1) -DWPROP_ID='"$(shell echo $(1) | cut -c1-3)"' -MMD -MP -c $$< -o $$@
+$(BUILD)/props/$(1): $(BUILD)/props/$(1).o $(FWBUILD)/fw_main.o $(BUILD)/wsim/wsimlib.o
+	$(CXX) $(SAN) -o $$@ $$^ -lrapidcheck -lpthread
+endef
+$(foreach p,$(WSIM_PROPS),$(eval $(call WSIM_RULES,$(p))))
+
 # C20: ThreadSanitizer build, real libc through the thread-safe shim
 $(BUILD)/props/C20.o: $(SRC)/props/C20.cpp $(wildcard $(SRC)/common/*.hpp)
 	@mkdir -p $(dir $@)
@@ -144,7 +172,7 @@ $(BUILD)/props/C20: $(BUILD)/props/C20.o $(FWBUILD)/fw_main_tsan.o $(FWBUILD)/vs
 prop-%: $(BUILD)/props/%
 	@true
 
-ALL_PROPS := $(patsubst $(SRC)/props/%.cpp,%,$(wildcard $(SRC)/props/C??.cpp)) C04win C04.rel C05.rel C06.rel C12.rel
+ALL_PROPS := $(patsubst $(SRC)/props/%.cpp,%,$(wildcard $(SRC)/props/C??.cpp)) $(WSIM_PROPS) C04win C04.rel C05.rel C06.rel C12.rel
 all: $(addprefix $(BUILD)/props/,$(ALL_PROPS)) $(FWBUILD)/puppet $(BUILD)/fuzz/C18_fuzz
 
 clean:
